@@ -318,6 +318,55 @@ pub assume_specification[ <i128 as core::convert::From<u32>>::from ](x: u32) -> 
 pub assume_specification[ <i128 as core::convert::From<u16>>::from ](x: u16) -> (r: i128) ensures r == x as i128;
 pub assume_specification[ <i128 as core::convert::From<u8>>::from ](x: u8) -> (r: i128) ensures r == x as i128;
 
+// ---- byte-range slicing of `&str` (R23) and the shape of a lexer token ------------------------------------------------------------
+pub open spec fn is_ascii_char(c: char) -> bool { (c as u32) < 128 }
+pub open spec fn ascii_prefix(s: Seq<char>, n: int) -> bool { 0 <= n <= s.len() && forall|i: int| 0 <= i < n ==> is_ascii_char(#[trigger] s[i]) }
+pub open spec fn ascii_suffix(s: Seq<char>, m: int) -> bool { 0 <= m <= s.len() && forall|i: int| s.len() - m <= i < s.len() ==> is_ascii_char(#[trigger] s[i]) }
+/// length of the UTF-8 encoding (what `str::len` returns); every char takes at least one byte
+pub uninterp spec fn str_byte_len(s: Seq<char>) -> nat;
+pub mod ax_bytes {
+use super::*;
+#[verifier::external_body]
+pub broadcast proof fn axiom_str_byte_len(s: Seq<char>) ensures #[trigger] str_byte_len(s) >= s.len() {}
+}
+pub use ax_bytes::*;
+/// `s.len()` on a `&str` named by R23 (vstd's own `str::len` contract cannot be related to `str_byte_len`)
+#[verifier::external_body]
+pub fn str_len(s: &str) -> (r: usize)
+    ensures r == str_byte_len(s@),
+{ s.len() }
+/// what the generated lexer hands to an action for a terminal (T1): literal prefix / suffix and minimal length read off the regex
+pub open spec fn tok_shape(s: Seq<char>, pre: Seq<char>, suf: Seq<char>, minlen: nat) -> bool {
+    s.len() >= minlen && pre.len() + suf.len() <= s.len() && s.subrange(0, pre.len() as int) == pre && s.subrange(s.len() - suf.len(), s.len() as int) == suf
+}
+/// `&s[start..]`.  std panics unless `start` is a char boundary <= len.  ASSUMED sufficient condition Verus can discharge: the first
+/// `start` chars are ASCII (each is one byte, so byte offset `start` is the boundary after `start` chars).
+#[verifier::external_body]
+pub fn str_slice_from<'a>(s: &'a str, start: usize) -> (r: &'a str)
+    requires ascii_prefix(s@, start as int),
+    ensures r@ == s@.skip(start as int),
+{ &s[start..] }
+/// `&s[start..end]` with `end` counted back from the byte length: the last `str_byte_len - end` chars are ASCII
+#[verifier::external_body]
+pub fn str_slice<'a>(s: &'a str, start: usize, end: usize) -> (r: &'a str)
+    requires
+        ascii_prefix(s@, start as int),
+        end <= str_byte_len(s@),
+        ascii_suffix(s@, str_byte_len(s@) - end),
+        start + (str_byte_len(s@) - end) <= s@.len(),
+    ensures r@ == s@.subrange(start as int, s@.len() - (str_byte_len(s@) - end)),
+{ &s[start..end] }
+#[verifier::external_body]
+pub fn str_full<'a>(s: &'a str) -> (r: &'a str)
+    ensures r@ == s@,
+{ &s[..] }
+/// `i128::from_str_radix`: Ok iff the digit string denotes a value of that radix that fits (uninterpreted)
+pub uninterp spec fn i128_from_str_radix(s: Seq<char>, radix: u32) -> Option<i128>;
+pub assume_specification[ i128::from_str_radix ](s: &str, radix: u32) -> (r: core::result::Result<i128, core::num::ParseIntError>)
+    ensures
+        r is Ok <==> i128_from_str_radix(s@, radix) is Some,
+        r is Ok ==> r->Ok_0 == i128_from_str_radix(s@, radix)->0;
+
 // `usize::from_str` (grammar actions): Ok iff the digit string denotes a value that fits
 pub uninterp spec fn usize_from_str(s: Seq<char>) -> Option<usize>;
 pub assume_specification[ <usize as core::str::FromStr>::from_str ](s: &str) -> (r: core::result::Result<usize, core::num::ParseIntError>)
